@@ -288,6 +288,17 @@ func Types(level int, decode bool) []reflect.Type {
 			}))
 		}
 	}
+	// every leaf, and a pointer to it, as the middle member of three: the interpreters have one
+	// opcode family for the first member of a struct, one for members in the middle and one for
+	// the last, each specialised by type, pointer-ness and tag
+	for _, l := range leaves {
+		for _, tag := range Tags {
+			add(reflect.StructOf([]reflect.StructField{{Name: "A", Type: TInt}, {Name: "F", Type: l, Tag: reflect.StructTag(tag)}, {Name: "Z", Type: TString}}))
+		}
+		for _, tag := range []string{``, `json:",omitempty"`, `json:",string"`} {
+			add(reflect.StructOf([]reflect.StructField{{Name: "A", Type: TInt}, {Name: "F", Type: reflect.PtrTo(l), Tag: reflect.StructTag(tag)}, {Name: "Z", Type: TString}}))
+		}
+	}
 	return out
 }
 
